@@ -21,7 +21,7 @@ pub fn mutate(t: &mut Tape, input: Vec<u8>) -> (Vec<u8>, &'static str) {
         lines.push(Vec::new());
     }
     let n = lines.len();
-    let which = t.weighted(&[3, 3, 3, 3, 3, 3, 4, 4, 2, 2, 2, 1, 2, 3, 2]);
+    let which = t.weighted(&[3, 3, 3, 3, 3, 3, 4, 4, 2, 2, 2, 1, 2, 3, 2, 2]);
     let name = match which {
         0 => {
             // truncate the stream at a byte position
@@ -170,7 +170,7 @@ pub fn mutate(t: &mut Tape, input: Vec<u8>) -> (Vec<u8>, &'static str) {
             // insert a header-ish line somewhere
             let i = t.below(n + 1);
             let m: &[u8] = *t.pick(&[
-                &b"@@ -1 +1 @@"[..], b"@@ foo @@", b"@@@ -1,2 -3,4 +5,6 @@@", b"@@ -1,2 @@", b"@@", b"@@ @@", b"@@ -a,b +c,d @@", b"diff --git ", b"diff --git a b", b"diff --git a/x b/y z",
+                &b"@@ -1 +1 @@"[..], b"@@ foo @@", b"@@@ -1,2 -3,4 +5,6 @@@", b"@@ -0,0 +0,0 @@", b"@@ -0 +0 @@", b"@@@ -0,0 -0,0 +0,0 @@@", b"@@ -1,0 +0,0 @@", b"@@ -1,2 @@", b"@@", b"@@ @@", b"@@ -a,b +c,d @@", b"diff --git ", b"diff --git a b", b"diff --git a/x b/y z",
                 b"--- ", b"+++ ", b"--- a/x", b"+++ b/y\t", b"rename from ", b"rename to ", b"copy from", b"old mode ", b"new mode 1", b"Binary files ", b"Binary files a and b differ",
                 b"commit ", b"commit abc", b"Submodule ", b"Submodule x 123..456:", b"Submodule x contains modified content", b"index ", b"diff --cc ", b"diff --combined x", b"Only in ", b"Only in a: b",
                 b"similarity index", b"new file mode ", b"deleted file mode ", b" 1 file changed", b" a | 3 +-", b"{}", b"{\"type\":\"match\"}", b"{\"type\":\"match\",\"data\":{}}",
@@ -185,6 +185,31 @@ pub fn mutate(t: &mut Tape, input: Vec<u8>) -> (Vec<u8>, &'static str) {
                 lines[i][0] = *t.pick(&[b'-', b'+', b' ', b'\\', b'@', b'd', 0xe4, b'\t', 0x1b]);
             }
             "first-byte"
+        }
+        14 => {
+            // rewrite all coordinates of a hunk header with small / zero values
+            let heads: Vec<usize> = (0..n).filter(|i| lines[*i].starts_with(b"@@")).collect();
+            if let Some(&i) = heads.get(t.below(heads.len().max(1))) {
+                let l = String::from_utf8_lossy(&lines[i]).into_owned();
+                let end = l[2..].find("@@").map(|p| p + 2).unwrap_or(l.len());
+                let mut out = String::new();
+                let mut in_num = false;
+                let vals = ["0", "0", "0", "1", "2", "10"];
+                let all_zero = t.chance(1, 3);
+                for (k, c) in l.char_indices() {
+                    if k < end && c.is_ascii_digit() {
+                        if !in_num {
+                            out.push_str(if all_zero { "0" } else { t.ps(&vals) });
+                            in_num = true;
+                        }
+                    } else {
+                        in_num = false;
+                        out.push(c);
+                    }
+                }
+                lines[i] = out.into_bytes();
+            }
+            "hunk-header-small-numbers"
         }
         _ => {
             // drop all newlines in a region: glue lines
